@@ -408,6 +408,34 @@ def near_misses(rng, toks):
         i = rng.randrange(n - 1)
         if toks[i] != toks[i + 1]:
             out.append(("swap", toks[:i] + [toks[i + 1], toks[i]] + toks[i + 2:], None))
+    # structural near misses: a parenthesised single name, a dropped list element, a stray / trailing separator, empty brackets
+    names = [i for i, (k, v) in enumerate(toks) if k == "N"]
+    if names:
+        i = rng.choice(names)
+        out.append(("wrap-name", toks[:i] + [["S", "("], toks[i], ["S", ")"]] + toks[i + 1:], None))
+    seps = [i for i, (k, v) in enumerate(toks) if k == "S" and v == ","]
+    if seps:
+        i = rng.choice(seps)
+        if i + 1 < n:
+            out.append(("drop-element", toks[:i] + toks[i + 2:], None))
+        out.append(("double-separator", toks[:i + 1] + toks[i:], None))
+    closers = [i for i, (k, v) in enumerate(toks) if k == "S" and v in (")", "]")]
+    if closers:
+        i = rng.choice(closers)
+        out.append(("trailing-separator", toks[:i] + [["S", ","]] + toks[i:], None))
+    opens = [i for i, (k, v) in enumerate(toks) if k == "S" and v == "("]
+    for i in opens[:1]:
+        depth, j = 0, i
+        while j < n:
+            if toks[j][0] == "S" and toks[j][1].endswith("("):
+                depth += 1
+            elif toks[j][0] == "S" and toks[j][1] == ")":
+                depth -= 1
+                if depth == 0:
+                    break
+            j += 1
+        if j < n and j > i + 1:
+            out.append(("empty-brackets", toks[:i + 1] + toks[j:], None))
     for i, (k, v) in enumerate(toks):
         if k == "S" and v in MULTI:
             j = rng.randrange(1, len(v))
